@@ -37,6 +37,7 @@ CHECKS = {
     "C12": ("kv.checks.types", "C12"),
     "C13": ("kv.checks.structure", "C13"),
     "C15": ("kv.checks.values", "C15"),
+    "C16": ("kv.checks.generator", "C16"),
     "C17": ("kv.checks.records", "C17"),
     "C18": ("kv.checks.records", "C18"),
     "C19": ("kv.checks.state", "C19"),
